@@ -1,4 +1,3 @@
-<<<<<<< HEAD
 """In-process fake NETCONF session: a Session subclass whose send() hands the scripted reply to the
 registered listeners (the real RPCReplyListener) through the real Session._dispatch_message, so that
 Manager.get/get_config/get_schema/dispatch/rpc run unchanged.  Also: recorders for the parse sites
@@ -71,266 +70,3 @@ class ParseSites:
     def __exit__(self, *a):
         self.xml_._get_parser, self.xml_.etree = self._gp, self._et
         return False
-=======
-"""In-memory transport and Session subclass used by the C02/C05 checks (and available to others).
-
-Nothing in ncclient is edited.  The real `Session.run`, `Session.send`, `Session._post_connect`,
-`HelloHandler`, the real parser and the real listeners run; only the four designed extension
-points (`_transport_read/_write/_register`, `_send_ready`) and `close` are supplied here, and two
-module-level names of `ncclient.transport.session` are rebound by `install()`:
-`selectors` (to a shim whose selector waits on the in-memory transport) and `TICK`.
-
-All blocking and all thread creation of the harness goes through a `Prims` object so that a
-deterministic scheduler can later replace `Thread/Event/Lock/Condition/Queue/monotonic` and get a
-`point(label)` call at every synchronisation point of the harness (transport read/write,
-readiness test, selector wait, queue put).  The default `Prims` are the real threading ones.
-(The session thread itself is `ncclient.transport.session.Thread`; a scheduler rebinds that name
-as DESIGN Appendix B describes.)"""
-import threading, queue, collections, time
-from io import BytesIO
-
-
-class Prims:
-    Thread = threading.Thread
-    Event = threading.Event
-    Lock = threading.Lock
-    Condition = threading.Condition
-    Queue = queue.Queue
-    monotonic = staticmethod(time.monotonic)
-    sleep = staticmethod(time.sleep)
-
-    def point(self, label, *info):
-        """Synchronisation point; a scheduler parks the calling thread here."""
-        return None
-
-
-PRIMS = Prims()
-
-ACCEPT_ALL = ('accept', None)
-
-
-class MemTransport:
-    """Duplex in-memory byte pipe seen from the client.
-
-    client -> server: every `write(data)` consumes one scripted answer
-        ('accept', n)  the transport takes data[:n] and returns n  (n None = everything; n may exceed len(data))
-        ('ret', k)     returns k <= 0 without taking anything ("closed")
-        ('raise', exc) raises exc
-      and is recorded in `writes` as (bytes(data), answer); taken octets accumulate in `wire`.
-    server -> client: `feed(bytes)` / `feed_eof()`; `read()` returns one fed segment (<= 4096) or b'' at EOF.
-    readiness: `send_ready()` consumes `readys` (default True when exhausted)."""
-
-    def __init__(self, prims=PRIMS):
-        self.prims = prims
-        self.cv = prims.Condition()
-        self.inbound = collections.deque()
-        self.eof = False
-        self.locally_closed = False
-        self.answers = collections.deque()
-        self.readys = collections.deque()
-        self.ready_log = []
-        self.events = []              # ('ready', answer) / ('write', call index) in program order of the session thread
-        self.writes = []
-        self.wire = bytearray()
-        self.on_write = None          # callable(transport): scripted server reacting to client bytes
-        self.on_ready = None          # callable(transport, answer): scripted server reacting to a readiness poll
-        self.on_select = None         # callable(transport): called at every selector wait
-        self.select_calls = 0
-
-    # ---- server side
-    def feed(self, data):
-        with self.cv:
-            if data:
-                self.inbound.append(bytes(data))
-            self.cv.notify_all()
-
-    def feed_eof(self):
-        with self.cv:
-            self.eof = True
-            self.cv.notify_all()
-
-    # ---- client side (called by the session thread)
-    def send_ready(self):
-        self.prims.point('send_ready')
-        r = self.readys.popleft() if self.readys else True
-        self.ready_log.append(r)
-        self.events.append(('ready', r))
-        if self.on_ready:
-            self.on_ready(self, r)
-        return r
-
-    def write(self, data):
-        self.prims.point('write')
-        data = bytes(data)
-        a = self.answers.popleft() if self.answers else ACCEPT_ALL
-        self.events.append(('write', len(self.writes)))
-        self.writes.append((data, a))
-        if a[0] == 'raise':
-            raise a[1]
-        if a[0] == 'ret':
-            return a[1]
-        n = len(data) if a[1] is None else a[1]
-        self.wire += data[:n]
-        if self.on_write:
-            self.on_write(self)
-        return n
-
-    def readable(self):
-        return bool(self.inbound) or self.eof or self.locally_closed
-
-    def wait_readable(self, timeout):
-        self.prims.point('select')
-        self.select_calls += 1
-        if self.on_select:
-            self.on_select(self)
-        with self.cv:
-            if not self.readable():
-                self.cv.wait(timeout)
-            return self.readable()
-
-    def read(self, n=4096):
-        self.prims.point('read')
-        with self.cv:
-            if self.inbound:
-                seg = self.inbound.popleft()
-                if len(seg) > n:
-                    self.inbound.appendleft(seg[n:])
-                    seg = seg[:n]
-                return seg
-            return b''
-
-    def local_close(self):
-        with self.cv:
-            self.locally_closed = True
-            self.cv.notify_all()
-
-
-class MemSelector:
-    """The part of the selectors API Session.run uses."""
-    def __init__(self):
-        self.objs = []
-
-    def register(self, fileobj, events, data=None):
-        self.objs.append(fileobj)
-
-    def select(self, timeout=None):
-        t = self.objs[0]
-        return [(t, 1)] if t.wait_readable(timeout) else []
-
-    def close(self):
-        pass
-
-
-class SelectorsShim:
-    EVENT_READ = 1
-    EVENT_WRITE = 2
-    DefaultSelector = MemSelector
-
-
-_installed = {}
-
-
-def install(tick=0.002):
-    """Rebind the two module-level names (idempotent).  Returns the session module."""
-    import ncclient.transport.session as S
-    if not _installed:
-        _installed['selectors'] = S.selectors
-        _installed['TICK'] = S.TICK
-    S.selectors = SelectorsShim
-    S.TICK = tick
-    return S
-
-
-def uninstall():
-    import ncclient.transport.session as S
-    if _installed:
-        S.selectors = _installed['selectors']
-        S.TICK = _installed['TICK']
-        _installed.clear()
-
-
-class RecordingQueue(queue.Queue):
-    """queue.Queue whose put order is observable (recorded under the queue's own mutex)."""
-    def __init__(self, prims=PRIMS):
-        queue.Queue.__init__(self)
-        self.put_log = []
-        self.prims = prims
-
-    def _put(self, item):
-        self.put_log.append(item)
-        queue.Queue._put(self, item)
-
-
-class ErrRecorder:
-    """SessionListener recording what the session dispatches (created lazily: needs ncclient)."""
-    @staticmethod
-    def make():
-        from ncclient.transport.session import SessionListener
-
-        class _Rec(SessionListener):
-            def __init__(self):
-                self.errors = []
-                self.messages = []
-                self.event = threading.Event()
-
-            def callback(self, root, raw):
-                self.messages.append((root, raw))
-
-            def errback(self, ex):
-                self.errors.append(ex)
-                self.event.set()
-        return _Rec()
-
-
-def make_session(device_handler=None, capabilities=None, prims=PRIMS, cls_name='FakeSession'):
-    """Build a FakeSession (class created lazily so that ncclient is imported after use_repo())."""
-    S = install(S_TICK[0])
-    from ncclient.capabilities import Capabilities
-    from ncclient.transport.parser import DefaultXMLParser
-
-    class FakeSession(S.Session):
-        def __init__(self, device_handler, capabilities):
-            if capabilities is None:
-                capabilities = Capabilities(device_handler.get_capabilities())
-            S.Session.__init__(self, capabilities)
-            self._device_handler = device_handler
-            self._buffer = BytesIO()
-            self._message_list = []
-            self._closing = prims.Event()
-            self.parser = DefaultXMLParser(self)
-            self._q = RecordingQueue(prims)
-            self.t = MemTransport(prims)
-            self._connected = True
-            self.close_calls = 0
-
-        def _transport_read(self):
-            return self.t.read()
-
-        def _transport_write(self, data):
-            return self.t.write(data)
-
-        def _transport_register(self, selector, event):
-            selector.register(self.t, event)
-
-        def _send_ready(self):
-            return self.t.send_ready()
-
-        def close(self):
-            self.close_calls += 1
-            self._closing.set()
-            self._connected = False
-            self.t.local_close()
-
-        def stop(self, bound=5.0):
-            """Orderly end of a case: local close, wait for the session thread."""
-            self.close()
-            if self.ident is not None:
-                self.join(bound)
-                return not self.is_alive()
-            return True
-
-    return FakeSession(device_handler, capabilities)
-
-
-S_TICK = [0.002]
->>>>>>> writer
